@@ -4,6 +4,7 @@ import (
 	"bufio"
 	"bytes"
 	"context"
+	"encoding/hex"
 	"encoding/json"
 	"fmt"
 	"io"
@@ -38,6 +39,13 @@ type HTTPCase struct {
 	DetachedInit bool `json:"detachedInit,omitempty"`
 	DeliveryTimeoutMs int  `json:"deliveryTimeoutMs,omitempty"`
 	FullBody          bool `json:"fullBody,omitempty"` // report the body whatever its size
+	// C12: report what the transport was handed and the exact bytes it wrote. Record: every response is
+	// marshalled (json.Marshal) at the moment the executor returns it (HTTPResult.Produced), the response's
+	// Content-Type and the raw body (hex) are reported. KeepAliveUs: SSE.KeepAlivePingInterval in microseconds.
+	// DeliveryTimeoutUs: MultipartMixed.DeliveryTimeout in microseconds (added to DeliveryTimeoutMs).
+	Record            bool `json:"record,omitempty"`
+	KeepAliveUs       int  `json:"keepAliveUs,omitempty"`
+	DeliveryTimeoutUs int  `json:"deliveryTimeoutUs,omitempty"`
 }
 
 type HTTPResult struct {
@@ -51,6 +59,10 @@ type HTTPResult struct {
 	Leaked    []string `json:"leaked,omitempty"`
 	Log       int      `json:"log"`
 	Recovers  int      `json:"recovers"`
+	// only with HTTPCase.Record
+	Produced []string `json:"produced,omitempty"` // hex of json.Marshal(response) taken when the executor returned it
+	CType    string   `json:"ctype,omitempty"`
+	BodyHex  string   `json:"bodyHex,omitempty"`
 }
 
 // RunHTTP serves one case and reports what is still running after the request ended.
@@ -60,8 +72,8 @@ func RunHTTP(es graphql.ExecutableSchema, c HTTPCase) HTTPResult {
 	}
 	st := &State{Plan: c.Plan, Schema: es.Schema(), CancelAt: int64(c.CancelAt)}
 	srv := handler.New(es)
-	srv.AddTransport(transport.SSE{})
-	srv.AddTransport(transport.MultipartMixed{DeliveryTimeout: time.Duration(c.DeliveryTimeoutMs) * time.Millisecond})
+	srv.AddTransport(transport.SSE{KeepAlivePingInterval: time.Duration(c.KeepAliveUs) * time.Microsecond})
+	srv.AddTransport(transport.MultipartMixed{DeliveryTimeout: time.Duration(c.DeliveryTimeoutMs)*time.Millisecond + time.Duration(c.DeliveryTimeoutUs)*time.Microsecond})
 	srv.AddTransport(transport.GET{})
 	srv.AddTransport(transport.POST{})
 	srv.SetRecoverFunc(func(ctx context.Context, err any) error {
@@ -70,6 +82,22 @@ func RunHTTP(es graphql.ExecutableSchema, c HTTPCase) HTTPResult {
 		st.mu.Unlock()
 		return fmt.Errorf("recovered: %v", err)
 	})
+	var produced []string
+	if c.Record {
+		srv.AroundResponses(func(ctx context.Context, next graphql.ResponseHandler) *graphql.Response {
+			r := next(ctx)
+			if r != nil {
+				b, err := json.Marshal(r)
+				if err != nil {
+					b = []byte("MARSHAL-ERROR " + err.Error())
+				}
+				st.mu.Lock()
+				produced = append(produced, hex.EncodeToString(b))
+				st.mu.Unlock()
+			}
+			return r
+		})
+	}
 	before := gqlgenGoroutines()
 	ts := httptest.NewServer(http.HandlerFunc(func(w http.ResponseWriter, r *http.Request) {
 		ctx, cancel := context.WithCancel(r.Context())
@@ -124,6 +152,9 @@ func RunHTTP(es graphql.ExecutableSchema, c HTTPCase) HTTPResult {
 		}
 		defer resp.Body.Close()
 		res.Status = resp.StatusCode
+		if c.Record {
+			res.CType = resp.Header.Get("Content-Type")
+		}
 		rd := bufio.NewReader(resp.Body)
 		if c.DisconnectAfter > 0 {
 			buf := make([]byte, c.DisconnectAfter)
@@ -136,6 +167,9 @@ func RunHTTP(es graphql.ExecutableSchema, c HTTPCase) HTTPResult {
 		res.BodyLen = len(b)
 		if len(b) < 4000 || c.FullBody {
 			res.Body = string(b)
+		}
+		if c.Record {
+			res.BodyHex = hex.EncodeToString(b)
 		}
 		if err != nil {
 			res.Hung = true
@@ -164,6 +198,7 @@ func RunHTTP(es graphql.ExecutableSchema, c HTTPCase) HTTPResult {
 	st.mu.Lock()
 	res.Log = len(st.Log)
 	res.Recovers = st.Recov
+	res.Produced = produced
 	st.mu.Unlock()
 	return res
 }
